@@ -139,7 +139,13 @@ def run(ctx):
             mt = re.search(r"(-?[0-9.]+(?:e-?[0-9]+)?) " + re.escape(cur), impl)
             val = float(mt.group(1)) if mt else None
             # specification: the rate used must be the number of some rate text that stands verbatim in the file as presented
-            verb = [float(x) for x in re.findall(r"(?<![0-9.])([0-9]+(?:\.[0-9]*)?)(?![0-9.])", text or "")] + [1.0]
+            # (str::parse::<f64> also reads a sign and an exponent: a damaged file can hold `1.08e6` or `-61.03`)
+            verb = [1.0]
+            for x in re.findall(r"(?<![0-9.eE+-])([-+]?(?:[0-9]+(?:\.[0-9]*)?|\.[0-9]+)(?:[eE][-+]?[0-9]+)?)", text or ""):
+                try:
+                    verb.append(float(x))
+                except ValueError:
+                    pass
             if val is None or not any(close(val, v) for v in verb):
                 ctx.spec_failures.append({"stream": "cache-files", "input": inp[:3000], "impl": impl[:200], "model": m,
                                           "spec": "a reported rate must be present verbatim in the cache file (here no number in the file equals it)"})
